@@ -131,10 +131,21 @@ def gen_case(r, stream: str):
     else:
         w = dict(arr=30, cl=24, read=22, frame=2, reset=6, rmall=6, rm=8)
     names, weights = list(w), list(w.values())
-    nframe = 0  # rough count of live clusters (only to pick plausible ids)
+    # a small simulation of the container (labels of the live clusters, charge held as array), only to aim the
+    # generator: removals that hit existing labels, partial removals right after a read, ...
+    labels: list[int] = []
+    held = [[0.0] * g["cols"] for _ in range(g["rows"])]
+    just_read = False
     out_used = False
+
+    def positives(m):
+        return sum(1 for row in m for x in row if x > 0)
+
     for t in range(nops):
         k = r.choices(names, weights)[0]
+        if "rm" in w and just_read and len(labels) >= 2 and r.random() < 0.4:
+            k = "rm"                                  # read; partial removal: the cached array must follow
+        just_read = False
         if k == "arr":
             kind = "ok"
             if stream == "malformed":
@@ -145,8 +156,11 @@ def gen_case(r, stream: str):
                 i, j = r.randrange(len(a)), r.randrange(len(a[0]))
                 a[i][j] = 16777217.0 if a[i][j] >= 0 else a[i][j]
             ops.append(dict(op="arr", a=a, dt=dt))
-            if nframe:
-                nframe += sum(1 for row in a for x in row if x > 0)
+            if len(a) == g["rows"] and all(len(row) == g["cols"] for row in a):
+                if labels:
+                    labels = list(range(len(labels) + positives(a)))
+                else:
+                    held = [[x + y for x, y in zip(ra, rb)] for ra, rb in zip(held, a)]
         elif k == "cl":
             m = r.choice([0, 1, 1, 2, 3, 4]) if t else r.choice([1, 2, 3])
             cs = []
@@ -162,22 +176,40 @@ def gen_case(r, stream: str):
                     fl = "float"
                 cs.append(gen_cluster(r, g, fl))
             ops.append(dict(op="cl", cs=cs))
-            nframe += m + 3
+            if labels:
+                labels = list(range(len(labels) + m))
+            else:
+                n0 = positives(held) if any(x != 0 for row in held for x in row) else 0
+                labels = list(range(n0 + m))
         elif k == "rm":
-            hi = max(2, min(nframe, 12))
-            ids = sorted(set(r.randrange(0, hi) for _ in range(r.choice([1, 1, 2, 3, hi]))))
+            u = r.random()
+            if labels and u < 0.65:                   # some of the live labels (partial when possible)
+                ids = sorted(r.sample(labels, r.randrange(1, max(2, min(len(labels), 4)))))
+            elif labels and u < 0.75:                 # all of them, by label
+                ids = list(labels)
+            else:
+                hi = max(2, min(len(labels) + 3, 12))
+                ids = sorted(set(r.randrange(0, hi) for _ in range(r.choice([1, 1, 2, 3, hi]))))
             if r.random() < 0.08:
                 ids = []
             ops.append(dict(op="rm", ids=ids))
+            had = bool(labels)
+            labels = [x for x in labels if x not in ids] if ids else []
+            if had and not labels:
+                held = [[0.0] * g["cols"] for _ in range(g["rows"])]
         elif k == "rmall":
             ops.append(dict(op="rmall"))
-            nframe = 0
+            if labels:
+                held = [[0.0] * g["cols"] for _ in range(g["rows"])]
+            labels = []
         elif k == "reset":
             ops.append(dict(op="reset"))
-            nframe = 0
+            labels = []
+            held = [[0.0] * g["cols"] for _ in range(g["rows"])]
         elif k == "read":
             # the three ways the container reports its array: .array, .to_xarray(), numpy's array protocol
             ops.append(dict(op=r.choice(["read", "read", "read", "xr", "np"])))
+            just_read = bool(labels)
         else:
             ops.append(dict(op=k))
     ops.append(dict(op="read"))
@@ -491,6 +523,70 @@ def to_violation(item, k_bad: int, mismatching: bool) -> Violation:
                      what=what, sig=sig)
 
 
+def first_bads_of(ctx: Ctx, triples, tag: str):
+    """Side-effect-free judge: the `first_bads` list of a case file, or None if it does not evaluate."""
+    if not triples:
+        return []
+    ok, evals, _ = core.coq_eval(ctx, tag, emit_file(triples), timeout=600)
+    if not ok or len(evals) < 3:
+        return None
+    return core.parse_int_list(evals[2])
+
+
+def shrink(ctx: Ctx, item, k_bad: int, rounds: int = 8):
+    """Greedy one-at-a-time reduction of a failing case (ops truncated at the first bad read): drop an op, or one
+    cluster of a cluster op, as long as some read is still judged wrong inside Coq.  Runs only when a violation was
+    found; never for cases that may write out of bounds in the default numba configuration."""
+    c, res, mode = item
+    if mode == "default" or k_bad <= 0:
+        return item, k_bad
+    cur, cur_res = dict(c, ops=c["ops"][:k_bad]), res
+    for rnd in range(rounds):
+        ops = cur["ops"]
+        cands = [dict(cur, ops=ops[:i] + ops[i + 1:]) for i in range(len(ops) - 1)]
+        for i, o in enumerate(ops[:-1]):
+            if o["op"] == "cl" and len(o["cs"]) > 1:
+                cands += [dict(cur, ops=ops[:i] + [dict(o, cs=o["cs"][:j] + o["cs"][j + 1:])] + ops[i + 1:])
+                          for j in range(len(o["cs"]))]
+        if not cands:
+            break
+        rs = run_impl(ctx, cands, mode, workers=4)
+        good = [(cd, r) for cd, r in zip(cands, rs) if "trace" in r]
+        fb = first_bads_of(ctx, [(cd, r, mode != "default") for cd, r in good], f"shrink_{rnd}")
+        if fb is None:
+            break
+        better = [(k, cd, r) for (cd, r), k in zip(good, fb) if k > 0]
+        if not better:
+            break
+        k, cd, r = min(better, key=lambda t: (t[0], sum(len(o.get("cs", [])) for o in t[1]["ops"])))
+        cur, cur_res = dict(cd, ops=cd["ops"][:k]), dict(r, trace=r["trace"][:k])
+    return (cur, cur_res, mode), len(cur["ops"])
+
+
+def report_violations(ctx: Ctx, viol):
+    """One shrunk representative per failure class first (these become the replay files), then the rest."""
+    by = {}
+    for item, k_bad, mm in viol:
+        by.setdefault(classify(item[0], item[1], k_bad), []).append((item, k_bad, mm))
+    firsts = []
+    for clause, lst in by.items():
+        item, k_bad, mm = min(lst, key=lambda t: (t[0][2] == "default", t[1]))
+        if len(firsts) < 6:
+            try:
+                item2, k2 = shrink(ctx, item, k_bad)
+                v = to_violation(item2, k2, mm)
+                if v.clause != clause:          # keep the class under which the failure was counted
+                    v = to_violation(item, k_bad, mm)
+            except Exception as ex:  # noqa: BLE001  -- shrinking is a convenience, never a reason to lose a violation
+                ctx.log(f"shrink failed ({type(ex).__name__}: {ex}); reporting the unshrunk case")
+                v = to_violation(item, k_bad, mm)
+        else:
+            v = to_violation(item, k_bad, mm)
+        firsts.append(v)
+    ctx.violations += firsts
+    ctx.violations += [to_violation(item, k_bad, mm) for item, k_bad, mm in viol]
+
+
 def trace_events(c, r) -> set:
     """Situations a sequence actually went through, read off the observed frames (which state the container was in
     when an op arrived) -- the conditions the state machine branches on."""
@@ -610,7 +706,7 @@ def run(ctx: Ctx):
 
     r = ctx.rng("cases")
     corpus = load_corpus()
-    n_fast = ctx.budget(900, 9000)
+    n_fast = ctx.budget(900, 6000)
     n_jit = ctx.budget(120, 900)
     n_def = ctx.budget(30, 300)
     n_unsafe = ctx.budget(8, 60)
@@ -651,8 +747,7 @@ def run(ctx: Ctx):
     for c, rr, m in kept[:2] + kept[len(corpus) + len(enum):len(corpus) + len(enum) + 3]:
         ctx.sample(dict(geometry=[c["rows"], c["cols"], c["ph"], c["pw"]], ops=c["ops"][:4], n_ops=len(c["ops"]),
                         mode=m, last=rr["trace"][-1] if rr.get("trace") else None))
-    for item, k_bad, mm in viol:
-        ctx.violations.append(to_violation(item, k_bad, mm))
+    report_violations(ctx, viol)
     (ctx.build / "mismatches.json").write_text(json.dumps(
         [dict(case=c, observed=rr, mode=m) for c, rr, m in mism[:20]], indent=1))
     for c, rr, m in mism:
@@ -676,8 +771,7 @@ def search(ctx: Ctx):
     cases = [gen_case(r, r.choice(["clean", "clean", "removal", "outside", "inexact"]))
              for _ in range(ctx.budget(2500, 8000))]
     mism, viol, kept = correspondence(ctx, [(cases, "nojit", 8, None, 1)], tag="s")
-    for item, k_bad, mm in viol:
-        ctx.violations.append(to_violation(item, k_bad, mm))
+    report_violations(ctx, viol)
     ctx.cov["search_sequences"] = len(kept)
 
 
